@@ -143,3 +143,20 @@ class Echo(Command):
             return (type(v).__name__, repr(v))
 
         return {k: d(v) for k, v in sorted(kw.items())}
+
+
+ARRAYS = {}
+
+
+class ArrayConst(Command):
+    """a data result given by the harness: ARRAYS[Key]"""
+
+    inputs = {"Key": params.StringParameter()}
+    output = params.DataParameter()
+
+    def execute(self, **kw):
+        return ARRAYS[kw["Key"]]
+
+
+class ArrayConstFuzzy(ArrayConst):
+    is_fuzzy = True
